@@ -250,6 +250,119 @@ async fn timeout_case(log: &mut Log, st: &mut Stats, rng: &mut Rng, case_no: u64
     hb.abort();
 }
 
+
+/// The session actors a node currently lists, by connection label.
+async fn session_actors(
+    ctl: &ractor::verif::Controller,
+    rng: &mut Rng,
+    st: &mut Stats,
+    node: &ActorRef<NodeServerMessage>,
+) -> Vec<(String, ActorRef<ractor_cluster::NodeSessionMessage>)> {
+    let node = node.clone();
+    let h = tokio::spawn(async move { ractor::call_t!(node, NodeServerMessage::GetSessions, 60_000) });
+    let mut guard = 0;
+    while !h.is_finished() {
+        schedule(ctl, rng, 50, st).await;
+        tokio::task::yield_now().await;
+        guard += 1;
+        if guard > 2000 {
+            return vec![];
+        }
+    }
+    match h.await {
+        Ok(Ok(m)) => m.into_values().map(|s| (s.peer_addr.clone(), s.actor.clone())).collect(),
+        _ => vec![],
+    }
+}
+
+/// Session death, NodeServer cleanup and re-election on reconnection, through the REAL handlers
+/// (`handle_supervisor_evt`, `ConnectionOpenedExternal`, `commit_authenticated`):
+///  1. `k1` connections converge on one link;
+///  2. that link's session is stopped on one node (`by`): its transport closes, the other node's
+///     session exits too; at rest NEITHER node may list or elect anything of the dead link;
+///  3. `k2` fresh connections are dialled: both nodes converge on one of the NEW ones.
+/// op   `e2r <nameA> <nameB> <dirs1> <dirs2> by=<a|b>`
+/// impl `<A kept>|<B kept> <A kept>|<B kept> <A kept>|<B kept>|<A ready of kept>|<B ready of kept>|<A disconnected, sorted>|<B …>`
+async fn reconnect_case(log: &mut Log, st: &mut Stats, rng: &mut Rng, case_no: u64) {
+    let pool = [("a", "b"), ("b", "a"), ("n1", "n10"), ("x", "Y")];
+    let (na, nb) = *rng.pick(&pool);
+    let host = format!("r{case_no}");
+    let k1 = rng.range(1, 3) as usize;
+    let k2 = rng.range(1, 3) as usize;
+    let dirs: Vec<bool> = (0..k1 + k2).map(|_| rng.chance(1, 2)).collect();
+    let by_a = rng.chance(1, 2);
+    let ctl = ractor::verif::install();
+    let Some((a, ha, _)) = spawn_node_alone(&ctl, rng, st, na, &host).await else {
+        ractor::verif::uninstall();
+        return;
+    };
+    let Some((b, hb, _)) = spawn_node_alone(&ctl, rng, st, nb, &host).await else {
+        ractor::verif::uninstall();
+        return;
+    };
+    let ev_a = Arc::new(Mutex::new(Events::default()));
+    let ev_b = Arc::new(Mutex::new(Events::default()));
+    a.cast(NodeServerMessage::SubscribeToEvents { id: "v".into(), subscription: Box::new(Sub(ev_a.clone())) }).unwrap();
+    b.cast(NodeServerMessage::SubscribeToEvents { id: "v".into(), subscription: Box::new(Sub(ev_b.clone())) }).unwrap();
+    schedule(&ctl, rng, 200, st).await;
+    let fmt = |v: &Vec<String>| if v.is_empty() { "-".to_string() } else { v.join(",") };
+    let open_some = async |range: std::ops::Range<usize>, rng: &mut Rng, st: &mut Stats| {
+        for i in range {
+            let (sa, sb) = tokio::io::duplex(64 * 1024);
+            let a_is_server = !dirs[i];
+            a.cast(NodeServerMessage::ConnectionOpenedExternal { stream: Box::new(Duplex { stream: sa, label: format!("c{i}") }), is_server: a_is_server }).unwrap();
+            let n = rng.below(12) as usize;
+            schedule(&ctl, rng, n, st).await;
+            b.cast(NodeServerMessage::ConnectionOpenedExternal { stream: Box::new(Duplex { stream: sb, label: format!("c{i}") }), is_server: !a_is_server }).unwrap();
+            let n = *rng.pick(&[0usize, 3, 10, 40, 400]);
+            schedule(&ctl, rng, n, st).await;
+        }
+        schedule(&ctl, rng, 200_000, st).await;
+    };
+    // 1.
+    open_some(0..k1, rng, st).await;
+    let s1a = sessions(&ctl, rng, st, &a).await;
+    let s1b = sessions(&ctl, rng, st, &b).await;
+    // 2. the link's session dies on one node
+    let victim = if by_a { &a } else { &b };
+    for (_, actor) in session_actors(&ctl, rng, st, victim).await {
+        actor.stop(Some("killed-by-harness".to_string()));
+    }
+    schedule(&ctl, rng, 200_000, st).await;
+    let s2a = sessions(&ctl, rng, st, &a).await;
+    let s2b = sessions(&ctl, rng, st, &b).await;
+    // 3. reconnection
+    open_some(k1..k1 + k2, rng, st).await;
+    let s3a = sessions(&ctl, rng, st, &a).await;
+    let s3b = sessions(&ctl, rng, st, &b).await;
+    let ready_of = |ev: &Arc<Mutex<Events>>, kept: &Vec<String>| {
+        let mut r: Vec<String> = ev.lock().unwrap().ready.iter().filter(|l| kept.contains(l)).cloned().collect();
+        r.sort();
+        r
+    };
+    let disc = |ev: &Arc<Mutex<Events>>| {
+        let mut d = ev.lock().unwrap().disconnected.clone();
+        d.sort();
+        d
+    };
+    st.bump("e2r");
+    let ds = |r: std::ops::Range<usize>| -> String { dirs[r].iter().map(|d| if *d { 'a' } else { 'b' }).collect() };
+    log.rec(
+        format!("e2r {na}@{host} {nb}@{host} {} {} by={}", ds(0..k1), ds(k1..k1 + k2), if by_a { "a" } else { "b" }),
+        format!(
+            "{}|{} {}|{} {}|{}|{}|{}|{}|{}",
+            fmt(&s1a), fmt(&s1b), fmt(&s2a), fmt(&s2b), fmt(&s3a), fmt(&s3b),
+            fmt(&ready_of(&ev_a, &s3a)), fmt(&ready_of(&ev_b, &s3b)), fmt(&disc(&ev_a)), fmt(&disc(&ev_b))
+        ),
+    );
+    a.stop(None);
+    b.stop(None);
+    schedule(&ctl, rng, 200_000, st).await;
+    ractor::verif::uninstall();
+    ha.abort();
+    hb.abort();
+}
+
 async fn one_case(log: &mut Log, st: &mut Stats, rng: &mut Rng, case_no: u64) {
     let pool = [("a", "b"), ("b", "a"), ("n1", "n10"), ("x", "Y"), ("node2", "node10")];
     let (na, nb) = *rng.pick(&pool);
@@ -375,6 +488,9 @@ async fn main() {
         one_case(&mut log, &mut st, &mut rng, c).await;
         if c % 10 == 7 {
             timeout_case(&mut log, &mut st, &mut rng, c).await;
+        }
+        if c % 10 == 3 {
+            reconnect_case(&mut log, &mut st, &mut rng, c).await;
         }
     }
     st.add("lines", log.lines);
